@@ -179,10 +179,10 @@ CHECKS["C13"] = {
     "lean_targets": ["Yae.Props.C13", "Yae.Props.C06"],
     "streams": [
         {"name": "history", "quick_n": 800, "thorough_n": 10000, "oracles": ["history-*", "process-crash"]},
-        EVAL(3000, 40000, kinds=["run", "pipeline"], projections=["prints"], oracles=["address-in-text"]),
+        EVAL(3000, 40000, kinds=["run", "pipeline"], projections=["prints"], oracles=["address-in-text", "backend-divergence-reentrant"]),
         {"name": "valrel", "quick_n": 2000, "thorough_n": 30000, "oracles_only": True, "oracles": ["valrel-canonical"]},
     ],
-    "explanation": "The model is a pure function of (source, environment): evaluation is determined (C06.determined), renderings and string() are invariant under any re-ordering of map entries at any depth (C13.texts_invariant, render_map_perm, stringify_map_perm, valEq_map_perm) and object rendering under field permutation (render_obj_perm); the only events are host calls and print lines. Tie: the history stream plays random Compile/invoke sequences on ONE engine with shared environment objects (structs, *types.Env/*val.Env, maps), each invoke twice, against fresh engines with fresh copies, with stdout captured and host values deep-compared; the prints projection of the eval stream.",
+    "explanation": "The model is a pure function of (source, environment): evaluation is determined (C06.determined), renderings and string() are invariant under any re-ordering of map entries at any depth (C13.texts_invariant, render_map_perm, stringify_map_perm, valEq_map_perm) and object rendering under field permutation (render_obj_perm); the only events are host calls and print lines. Tie: the history stream plays random Compile/invoke sequences on ONE engine with shared environment objects (structs, *types.Env/*val.Env, maps), each invoke twice, against fresh engines with fresh copies, with stdout captured and host values deep-compared; the prints projection of the eval stream; a compiled expression re-entered from a host function while it is running (an interleaved invocation) must give the results of separate evaluations on every back end.",
     "assumptions": ["string() of an object follows declaration order by design (kernel-checked example C13.stringify_obj_declaration_order); it is a function of the environment's contents, which include the field order"],
 }
 
@@ -251,9 +251,9 @@ CHECKS["C19"] = {
     "lean_targets": ["Yae.Props.C19"],
     "streams": [
         {"name": "debug", "quick_n": 2500, "thorough_n": 30000,
-         "oracles": ["debug-result-differs", "debug-record", "debug-record-shifted", "debug-render-firstline", "debug-render-missing-value", "debug-panic", "process-crash"]},
+         "oracles": ["debug-result-differs", "debug-record", "debug-record-shifted", "debug-column-not-at-term", "debug-render-firstline", "debug-render-missing-value", "debug-panic", "process-crash"]},
     ],
-    "explanation": "Debug evaluation is the reference evaluator with dbg = true. Proved: it returns the same value or failure and, apart from the debug entries, the same host calls and prints as normal evaluation, for every expression, environment and fuel (C19.same_result, same_run); an entry is recorded exactly when an identifier / call / subscript / member node completes, carrying its value and column+1, literals record nothing and untaken branches record nothing (recorded_node, record_on_success, no_record_on_failure, record_ident, *_records_nothing, if_records_only_taken); Record.Rec keeps columns distinct and places an entry at its own column when free (rec_free, rec_first_free, rec_distinct_cols), so the record equals the entries whenever their columns are distinct (recordOf_faithful_partial; the kernel-checked d27_eval / d27_record show the shift when a thunk is forced twice: finding D27); the report's first line is the source (render_firstline). Tie: debug stream (result, hook-exported entries, report text) on single-line programs with non-ASCII identifiers, multi-line values, unevaluated lazy branches, lazy host functions; oracles: same result, entries equal an independent instrumented walk, first line, every recorded value shown at its column. The report: render_shows / render_shows_lines / render_shows_last (every recorded value with column >= 1 that is the last of its column stands, whole, on one report line below the source and the | line, starting at its column; a multi-line value on consecutive lines), render_hidden (the other entries do not influence the report), render_first_line, render_no_break, render_lines_join, and recordOf_shown (composition with the distinct-columns theorem for real records). Not proved: that the cells between values hold only blanks and |.",
+    "explanation": "Debug evaluation is the reference evaluator with dbg = true. Proved: it returns the same value or failure and, apart from the debug entries, the same host calls and prints as normal evaluation, for every expression, environment and fuel (C19.same_result, same_run); an entry is recorded exactly when an identifier / call / subscript / member node completes, carrying its value and column+1, literals record nothing and untaken branches record nothing (recorded_node, record_on_success, no_record_on_failure, record_ident, *_records_nothing, if_records_only_taken); Record.Rec keeps columns distinct and places an entry at its own column when free (rec_free, rec_first_free, rec_distinct_cols), so the record equals the entries whenever their columns are distinct (recordOf_faithful_partial; the kernel-checked d27_eval / d27_record show the shift when a thunk is forced twice: finding D27); the report's first line is the source (render_firstline). Tie: debug stream (result, hook-exported entries, report text) on single-line programs with non-ASCII identifiers, multi-line values, unevaluated lazy branches, lazy host functions; oracles: same result, entries equal an independent instrumented walk, first line, every recorded value shown at its column, every evaluated variable attributed to the column where its name stands in the source (also with tabs, carriage returns and Unicode spaces between tokens). The report: render_shows / render_shows_lines / render_shows_last (every recorded value with column >= 1 that is the last of its column stands, whole, on one report line below the source and the | line, starting at its column; a multi-line value on consecutive lines), render_hidden (the other entries do not influence the report), render_first_line, render_no_break, render_lines_join, and recordOf_shown (composition with the distinct-columns theorem for real records). Not proved: that the cells between values hold only blanks and |.",
     "assumptions": [],
 }
 
